@@ -264,12 +264,14 @@ PROPS["C11"] = {
     "level": "exploration",
     "budget_s": {"quick": 70, "thorough": 2400},
     "modes": [{"name": "", "runs": {"quick": 2500, "thorough": 60000}, "chunk": 100},
-              {"name": "reject", "runs": {"quick": 3000, "thorough": 60000}, "chunk": 500}],
+              {"name": "reject", "runs": {"quick": 3000, "thorough": 60000}, "chunk": 500},
+              {"name": "mutants", "runs": {"quick": 4000, "thorough": 120000}, "chunk": 200}],
     "rule": ("mode '' (simulation, tier E): one run = a typed OPL program (2-4 namespaces; relations typed with namespaces and SubjectSet<T,R>, unions; permissions over includes / permits / traverse into related and permits) that keto's real parser and type checker ACCEPT (others are skipped and counted), "
              "default or strict mode, a type-conforming store, and a check on EVERY declared (namespace, relation) x 3 objects under 1 (quick) / 3 (thorough) tape-chosen schedules (which sub-check result the checkgroup sees first decides whether an error surfaces). Oracle: no result carries a schema error ('relation ... does not exist', 'not implemented'). "
+             "mode 'mutants' (tier E): 1-3 token-level mutations (deletion, duplication, swap, insertion of operators / brackets / keywords) of such a program; the mutants that keto's parser STILL accepts without errors (the property quantifies over every accepted program) are installed as they are and every declared (namespace, relation) is checked on a store that conforms to the parsed types: no schema error and no panic (a panic kills the worker; the death is confirmed in a fresh process). "
              "mode 'reject' (NOT simulation - a plain seeded generator check, reported separately): one reference of an accepted program (type namespace, SubjectSet namespace / relation, includes, permits, traverse relation, traverse computed relation) is replaced by an undeclared name; Parse must return errors, one of them at the replaced token. "
              "non-trivial = program has rewrites and the store is non-empty; distinct = hash of (program, store)."),
-    "probes": ["probe_traverse_over_subjectset_type", "strict_cases", "mutated_type-namespace", "mutated_subjectset-relation", "mutated_includes", "mutated_traverse-rel", "mutated_traverse-computed"],
+    "probes": ["probe_traverse_over_subjectset_type", "strict_cases", "mutants_accepted", "mutated_type-namespace", "mutated_subjectset-relation", "mutated_includes", "mutated_traverse-rel", "mutated_traverse-computed"],
     "real": REAL_E + ["internal/schema parser and type checker (real, decides acceptance)"], "stub": STUB_E,
     "fault_kinds": {},
     "assumptions": ["a schema error is recognised by its message ('does not exist' / 'not implemented' / bad-request reason)", "mode 'reject' has no schedule, fault or history: it is input generation, included for completeness of the property and labelled so"],
